@@ -157,6 +157,13 @@ Example nest_ex_cross_theorem :   (* the cross-product theorem instantiated: a, 
 Proof. intros x Hx. apply lower_expand_matching_tree; try reflexivity; [discriminate | exact Hx]. Qed.
 Example nest_ex_is_amp_free : has_amp_x (lower_is (LCons (ty1 1) (LCons (ty1 2) LNil)) (XCons (Cp 1 true None (SPc true (LCons amp1 LNil) SNil)) XNil)) = false.
 Proof. apply lower_is_amp_free. reflexivity. Qed.
+From V Require Import C12.HslSpec C12.HslModel.
+Example hsl_ex_two_turns :   (* hsl(720 100% 50%) is red, hsl(-1turn 80% 40%) is #b81414, in model and spec *)
+  hslrgb_both_ok (0, 0, 720, 1, 100, 50, (255, 0, 0))%Z = true /\ hslrgb_both_ok (0, 2, -1, 1, 80, 40, (184, 20, 20))%Z = true
+  /\ hslrgb_both_ok (0, 0, 720, 1, 100, 50, (0, 0, 0))%Z = false.
+Proof. vm_compute. repeat split; reflexivity. Qed.
+Example hsl_ex_theorem : rgb_eqb (model_hsl (QArith_base.inject_Z 720) (QArith_base.inject_Z 100) (QArith_base.inject_Z 50)) (hsl_spec (QArith_base.inject_Z 720) (QArith_base.inject_Z 100) (QArith_base.inject_Z 50)) = true.
+Proof. vm_compute. reflexivity. Qed.
 Example dedupe_ex :
   keep_last decl_eqb [mkDecl 1 1 true 0; mkDecl 1 2 false 0; mkDecl 1 1 false 0; mkDecl 1 1 true 0; mkDecl 1 2 false 0]
   = [mkDecl 1 1 false 0; mkDecl 1 1 true 0; mkDecl 1 2 false 0].
